@@ -186,9 +186,14 @@ contract('parso.python.diff._get_last_line', params={'node_or_leaf': 'ref:NodeOr
                    'kinds=dict(l="ref:Leaf"))' % exists_nd('l')],
          # the line of the last leaf when the text up to there ends in a newline leaf; otherwise the line its text ends on,
          # plus one when only the endmarker follows and its prefix holds a line feed
+         # (a line break: '\\n' or a bare '\\r' -- from the property, not from the code, which tested '\\n' only until the
+         # fix recorded in known_findings.json)
          ensures=['implies(%s, result == spos(%s)[0])' % (LL_ENDS_NL, LL),
-                  'implies(not %s and %s.type == "endmarker" and "\\n" in %s.prefix, result == epos(%s)[0] + 1)' % (LL_ENDS_NL, NXT, NXT, LL),
-                  'implies(not %s and not (%s.type == "endmarker" and "\\n" in %s.prefix), result == epos(%s)[0])' % (LL_ENDS_NL, NXT, NXT, LL)],
+                  # ... the statement reaches to the end marker: its last line is the end marker's line
+                  'implies(not %s and %s.type == "endmarker" and ("\\n" in %s.prefix or "\\r" in %s.prefix), result == spos(%s)[0])'
+                  % (LL_ENDS_NL, NXT, NXT, NXT, NXT),
+                  'implies(not %s and not (%s.type == "endmarker" and ("\\n" in %s.prefix or "\\r" in %s.prefix)), result == epos(%s)[0])'
+                  % (LL_ENDS_NL, NXT, NXT, NXT, LL)],
          theories=['tree', 'treepos', 'leafnum'], props=['C04'])
 
 
